@@ -100,6 +100,12 @@ def _solve(args):
             else:
                 first = [p for p in plan if p[0] == hint]
             plan = first + [p for p in plan if p not in first]
+        if not expect_sat and hint == "cq":
+            # cvc5 on the quantifier-free part discharged it last time
+            rr = _cvc5({"qf": smts["qf"]}, "qf", max(10, timeout_ms // 4000))
+            if rr is not None:
+                return "unsat", time.time() - t0, "[cvc5/qf]"
+            hint = None
         if not expect_sat and isinstance(hint, str) and hint.startswith("c"):
             # the ledger says cvc5 discharged this one last time (typically nonlinear integer arithmetic): ask it first
             r = _cvc5(smts, int(hint[1:]), max(10, timeout_ms // 4000))
@@ -127,9 +133,9 @@ def _solve(args):
             if tier == "qf":
                 if r == z3.unknown:
                     # quantifier-free but beyond z3 in the time given (nonlinear integer arithmetic): cvc5 on the same small text
-                    rr = _cvc5({"qf": smts["qf"]}, "qf", 5)
+                    rr = _cvc5({"qf": smts["qf"]}, "qf", max(5, timeout_ms // 8000))
                     if rr is not None:
-                        return "unsat", time.time() - t0, "[cvc5/tier0]"
+                        return "unsat", time.time() - t0, "[cvc5/qf]"
                 continue
             if r == z3.sat and (tier == 2 or expect_sat):
                 # a model is meaningful only with the full definitions (or for reachability checks)
